@@ -6,6 +6,7 @@ import EduceModel.Spec.Hash
 import EduceModel.Spec.Clone
 import EduceModel.Spec.Debug
 import EduceModel.Spec.Deref
+import EduceModel.Spec.Into
 /-
   Line-protocol driver: one JSON array per line in, one JSON array per line out.
   The executable definitions it runs are exactly the ones the theorems are about
@@ -29,6 +30,7 @@ structure FieldJ where
   debug : DbgField
   deref : DerefField
   derefMut : DerefField
+  into : IntoField
   deriving Inhabited
 
 structure VariantJ where
@@ -59,6 +61,7 @@ structure St where
   cloneV : Std.HashMap (String × Nat) Nat := {}               -- (ty, a) ↦ id of a.clone()
   cloneF : Std.HashMap (String × Nat × Nat) Nat := {}         -- (ty, dst, src) ↦ id of dst after clone_from
   methV : Std.HashMap (String × Nat × Nat) Nat := {}          -- (kind, id, a) ↦ id of m(a)
+  conv : Std.HashMap (Nat × Nat × Nat) Nat := {}               -- (from type id, target id, a) ↦ value
   dbgV : Std.HashMap (String × Nat) (String × String) := {}   -- (ty, a) ↦ ({:?}, {:#?}) of the leaf
   methD : Std.HashMap (Nat × Nat) (String × String) := {}     -- (id, a) ↦ output of the debug method
   defs : Std.HashMap Nat DefJ := {}
@@ -92,6 +95,7 @@ def parseField (j : Json) : FieldJ :=
   let g := jfield j "debug"
   let dr := jfield j "deref"
   let dm := jfield j "derefmut"
+  let io := jfield j "into"
   { name := name, ty := jstr (jfield j "ty"),
     eq := { name := name, ignore := jbool (jfield e "ignore"),
             method := (jopt (jfield e "method")).map jnat },
@@ -103,7 +107,9 @@ def parseField (j : Json) : FieldJ :=
     debug := { name := name, ignore := jbool (jfield g "ignore"), method := (jopt (jfield g "method")).map jnat,
                rename := (jopt (jfield g "rename")).map fun r => (jstr r).toList },
     deref := { name := name, flag := jbool (jfield dr "flag"), isRef := jbool (jfield dr "isRef") },
-    derefMut := { name := name, flag := jbool (jfield dm "flag"), isRef := jbool (jfield dm "isRef") } }
+    derefMut := { name := name, flag := jbool (jfield dm "flag"), isRef := jbool (jfield dm "isRef") },
+    into := { name := name, ty := jnat (jfield io "ty"),
+              markers := (jarr (jfield io "markers")).toList.map fun p => (jnat (jarr p)[0]!, (jopt (jarr p)[1]!).map jnat) } }
 
 def parseDef (j : Json) : DefJ :=
   { isEnum := jstr (jfield j "kind") == "enum",
@@ -155,6 +161,19 @@ def DefJ.derefType (d : DefJ) (mutable : Bool) : DerefType :=
     { name := v.name, shape := v.shape, fields := v.fields.toList.map fun f => if mutable then f.derefMut else f.deref }
   if d.isEnum then .enum (d.variants.toList.map mk)
   else .struct (mk (d.variants[0]!))
+
+def DefJ.intoType (d : DefJ) : IntoType :=
+  let mk (v : VariantJ) : IntoVariant :=
+    { name := v.name, shape := v.shape, fields := v.fields.toList.map (·.into) }
+  if d.isEnum then .enum (d.variants.toList.map mk)
+  else .struct (mk (d.variants[0]!))
+
+def DefJ.intoTyOf (d : DefJ) (p : Pos) : Nat :=
+  match d.variants[p.variant]? with
+  | some v => match v.fields[p.field]? with
+    | some f => f.into.ty
+    | none => 0
+  | none => 0
 
 def DefJ.tyOf (d : DefJ) (p : Pos) : String :=
   match d.variants[p.variant]? with
@@ -352,6 +371,28 @@ def handle (st : St) (j : Json) : St × Option Json :=
         | some p => changed (Sem.writeThrough x p 99)
         | none => Json.str "refused"
       (st, some (Json.arr #[op, a[1]!, a[2]!, a[3]!, m, s]))
+  else if op == "conv" then
+    ({ st with conv := st.conv.insert (jnat a[1]!, jnat a[2]!, jnat a[3]!) (jnat a[4]!) }, none)
+  else if op == "into" then
+    -- ["into", def, target, va, [fa]] → value returned by Into::<target>::into
+    match st.defs.get? (jnat a[1]!) with
+    | none => (st, some (Json.arr #["error", "unknown def"]))
+    | some d =>
+      let ty := d.intoType
+      let t := jnat a[2]!
+      let x : Val Nat := ⟨jnat a[3]!, natList a[4]!⟩
+      let ops : IntoOps Nat :=
+        { conv := fun p t v => (st.conv.get? (d.intoTyOf p, t, v)).getD 999999,
+          method := fun m v => (st.methV.get? ("into", m, v)).getD 999999 }
+      let m : Json := match Gen.Into.item ty t with
+        | .error _ => Json.str "rejected"
+        | .ok it => match Sem.evalInto ops ty it x with
+          | some v => Json.num v
+          | none => Json.str "unbound"
+      let s : Json := match Spec.into ops ty t x with
+        | some v => Json.num v
+        | none => Json.str "refused"
+      (st, some (Json.arr #["into", a[1]!, a[2]!, a[3]!, a[4]!, m, s]))
   else if op == "hash" then
     -- ["hash", def, va, [fa]] → fed data as a list of strings
     match st.defs.get? (jnat a[1]!) with
